@@ -216,6 +216,69 @@ def double_println_cases(r, n):
     return cases
 
 
+def nested_interpolation_cases(r, n):
+    """interpolated strings whose {expr} segments call functions that themselves return interpolated strings (also
+    recursively): every segment is replaced by the value of its expression and all other text is kept; expected text computed
+    by the harness from the same definitions"""
+    HDR = ("struct Pt { int x; int y; };\n"
+           "string pt_str(Pt p) {\n    return \"({p.x}, {p.y})\";\n}\n"
+           "string tag(int n) {\n    return \"#{n:03d}\";\n}\n"
+           "string cd(int n) {\n    if (n == 0) {\n        return \"go\";\n    }\n    return \"{n}..{cd(n - 1)}\";\n}\n"
+           "string wrap(int n) {\n    return \"<{tag(n)}|{tag(n + 1)}>\";\n}\n"
+           "int twice(int v) {\n    return v * 2;\n}\n")
+
+    def tag(n):
+        return "#%03d" % n if n >= 0 else "#-%02d" % -n
+
+    def cd(n):
+        return "go" if n == 0 else "%d..%s" % (n, cd(n - 1))
+
+    def wrap(n):
+        return "<%s|%s>" % (tag(n), tag(n + 1))
+    cases = []
+    for k in range(n):
+        body, exp = [], []
+        body.append("    Pt p;\n    p.x = %d;\n    p.y = %d;\n    int a = %d;\n" % (k + 3, -k - 4, k + 7))
+        px, py, a = k + 3, -k - 4, k + 7
+        segs = []      # (source text, rendered text)
+        for _ in range(r.range(2, 5)):
+            c = r.below(8)
+            lead = r.choice(["", "x ", "id ", "= ", "日本 ", "[", "a b c "])
+            if c == 0:
+                segs.append((lead + "{pt_str(p)}", lead + "(%d, %d)" % (px, py)))
+            elif c == 1:
+                v = r.range(0, 40)
+                segs.append((lead + "{tag(%d)}" % v, lead + tag(v)))
+            elif c == 2:
+                v = r.range(0, 4)
+                segs.append((lead + "{cd(%d)}!" % v, lead + cd(v) + "!"))
+            elif c == 3:
+                segs.append((lead + "{wrap(a)}", lead + wrap(a)))
+            elif c == 4:
+                segs.append((lead + "{twice(a)}", lead + str(2 * a)))
+            elif c == 5:
+                segs.append((lead + "{a:x}", lead + "%x" % a))
+            elif c == 6:
+                segs.append((lead + "{{{tag(a)}}}", lead + "{" + tag(a) + "}"))
+            else:
+                segs.append((lead + "plain", lead + "plain"))
+        src = " ".join(s_ for s_, _ in segs)
+        out = " ".join(t for _, t in segs)
+        form = k % 3
+        if form == 0:
+            body.append("    println(\"%s\");\n" % src)
+            exp.append(out + "\n")
+        elif form == 1:
+            body.append("    string line = \"%s\";\n    println(line);\n    println(line);\n" % src)
+            exp.append(out + "\n" + out + "\n")
+        else:
+            body.append("    println(\"n:\", a, \"%s\");\n" % src)
+            exp.append("n: %d %s\n" % (a, out))
+        cases.append({"id": "nested-interp-%d" % k, "program": HDR + "int main() {\n" + "".join(body) + "    println(\"END\");\n    return 0;\n}\n",
+                      "expect_class": "ok", "expect_stdout": "".join(exp) + "END\n"})
+    return cases
+
+
 def main(a):
     c = RefCheck(PID, a, ["CbProofs", "CbProps.C16", "CbProps.C16Fixed"], THEOREMS)
     if not c.build():
@@ -232,6 +295,7 @@ def main(a):
     fc, nfixed = fixed_cases(Rng(a.seed, 163), 300 if quick else 30000, common.driver_path())
     c.raw_suite("fixed-precision", fc)
     c.raw_suite("double-println", double_println_cases(Rng(a.seed, 164), 60 if quick else 6000))
+    c.raw_suite("nested-interpolation", nested_interpolation_cases(Rng(a.seed, 165), 60 if quick else 3000))
     return c.finish(
         rule="boundary-integers: %d integers (every power of two and of ten +-1, type boundaries) x {println, {v}, :x, :X, :b, "
              ":Nd, :0Nd, %%d, %%lld, %%Nd, %%0Nd, %%-Nd} x widths; text-and-printf: random ASCII/UTF-8 literals, doubled "
@@ -246,4 +310,6 @@ def main(a):
                      "variables, width with precision ({x:8.2f}) and :e are not exercised",
                      "print / println of a double without format is compared with C's %.15g (+ '.0' for integer-looking values): a "
                      "calibration to the implementation, the oracle is Python's formatting (trusted harness, no Lean model)",
+                     "nested-interpolation ({expr} segments calling functions that return interpolated strings, recursion, struct "
+                     "members): expected text computed by the harness (no Lean model of string-valued functions)",
                      "%x %o %u and {v:o} are not documented conversions and are not exercised"])
